@@ -85,6 +85,7 @@ func isBuiltinCall(in ssa.Instruction, name string) (*ssa.Call, bool) {
 type lit struct {
 	v   ssa.Value
 	pol bool
+	via *ssa.Call // non-nil: imported from inside the boolean helper called here (predicate look-through)
 }
 
 type clause []lit // disjunction
@@ -94,6 +95,8 @@ type fnInfo struct {
 	dead     map[*ssa.BasicBlock]int // block -> index of first no-return instr (block is a dead end from there)
 	facts    map[*ssa.BasicBlock][]clause
 	factDone bool
+	own      map[*ssa.BasicBlock][]clause // facts without what was imported from helpers
+	busy     bool                         // guards() is being computed for this function (recursion guard for predicate look-through)
 }
 
 func (c *Ctx) info(fn *ssa.Function) *fnInfo {
@@ -173,10 +176,27 @@ func tautology(cl clause) bool {
 // that necessarily hold whenever the block executes. Back edges are ignored, so a literal
 // always speaks about the latest evaluation of its condition on the way into the block.
 func (c *Ctx) guards(fn *ssa.Function) map[*ssa.BasicBlock][]clause {
+	all := c.guardsAll(fn)
+	if c.deepFacts {
+		return all
+	}
+	fi := c.info(fn)
+	if fi.own == nil {
+		fi.own = map[*ssa.BasicBlock][]clause{}
+		for b, cls := range all {
+			fi.own[b] = c.visible(cls)
+		}
+	}
+	return fi.own
+}
+
+func (c *Ctx) guardsAll(fn *ssa.Function) map[*ssa.BasicBlock][]clause {
 	fi := c.info(fn)
 	if fi.factDone {
 		return fi.facts
 	}
+	fi.busy = true
+	defer func() { fi.busy = false }()
 	fi.facts = map[*ssa.BasicBlock][]clause{}
 	// reverse post-order over forward edges
 	var order []*ssa.BasicBlock
@@ -204,7 +224,7 @@ func (c *Ctx) guards(fn *ssa.Function) map[*ssa.BasicBlock][]clause {
 			if _, dead := fi.dead[p]; dead {
 				continue
 			}
-			sets = append(sets, c.edgeFacts(fi, p, b))
+			sets = append(sets, c.edgeFactsRaw(fi, p, b))
 		}
 		res := mergeClauseSets(sets)
 		sort.SliceStable(res, func(i, j int) bool { return clauseOrder(res[i]) < clauseOrder(res[j]) })
@@ -220,7 +240,7 @@ func (c *Ctx) guards(fn *ssa.Function) map[*ssa.BasicBlock][]clause {
 }
 
 // edgeFacts: facts holding when control passes along p -> b.
-func (c *Ctx) edgeFacts(fi *fnInfo, p, b *ssa.BasicBlock) []clause {
+func (c *Ctx) edgeFactsRaw(fi *fnInfo, p, b *ssa.BasicBlock) []clause {
 	fs := append([]clause(nil), fi.facts[p]...)
 	if iff, ok := p.Instrs[len(p.Instrs)-1].(*ssa.If); ok && p.Succs[0] != p.Succs[1] {
 		v, pol := peelNot(iff.Cond, p.Succs[0] == b)
@@ -229,11 +249,50 @@ func (c *Ctx) edgeFacts(fi *fnInfo, p, b *ssa.BasicBlock) []clause {
 	return fs
 }
 
+// edgeFacts: facts holding when control passes along p -> b, as seen by rules: facts imported
+// from inside boolean helpers are hidden unless the rule asked for them (withDeepFacts).
+func (c *Ctx) edgeFacts(fi *fnInfo, p, b *ssa.BasicBlock) []clause {
+	return c.visible(c.edgeFactsRaw(fi, p, b))
+}
+
+func (c *Ctx) visible(cls []clause) []clause {
+	if c.deepFacts {
+		return cls
+	}
+	var out []clause
+	for _, cl := range cls {
+		own := true
+		for _, l := range cl {
+			if l.via != nil {
+				own = false
+			}
+		}
+		if own {
+			out = append(out, cl)
+		}
+	}
+	return out
+}
+
+// withDeepFacts: inside the returned scope the guard facts include what holds inside small
+// side-effect-free boolean helpers called in conditions (`if b.isFull()`), so that a condition
+// extracted into a helper is read like the inline condition.
+func (c *Ctx) withDeepFacts() func() {
+	old := c.deepFacts
+	c.deepFacts = true
+	return func() { c.deepFacts = old }
+}
+
 // litFacts: clauses implied by "v has truth value pol". A boolean φ (the value form of
 // && / ||, e.g. in `switch { case a || b: }`) is expanded over its incoming edges.
 func (c *Ctx) litFacts(fi *fnInfo, v ssa.Value, pol bool, depth int) []clause {
 	v, pol = peelNot(v, pol)
-	out := []clause{{{v, pol}}}
+	out := []clause{{{v: v, pol: pol}}}
+	if call, isCall := v.(*ssa.Call); isCall && depth <= 2 {
+		if fs, ok := c.predFacts(call, pol, depth); ok {
+			return append(out, fs...)
+		}
+	}
 	phi, ok := v.(*ssa.Phi)
 	if !ok || depth > 4 {
 		return out
@@ -249,10 +308,10 @@ func (c *Ctx) litFacts(fi *fnInfo, v ssa.Value, pol bool, depth int) []clause {
 			if k != pol {
 				continue // this edge cannot produce the value
 			}
-			sets = append(sets, c.edgeFacts(fi, pred, pb))
+			sets = append(sets, c.edgeFactsRaw(fi, pred, pb))
 			continue
 		}
-		fs := c.edgeFacts(fi, pred, pb)
+		fs := c.edgeFactsRaw(fi, pred, pb)
 		fs = append(fs, c.litFacts(fi, e, pol, depth+1)...)
 		sets = append(sets, fs)
 	}
@@ -260,6 +319,119 @@ func (c *Ctx) litFacts(fi *fnInfo, v ssa.Value, pol bool, depth int) []clause {
 		return out
 	}
 	return append(out, mergeClauseSets(sets)...)
+}
+
+// predFacts: look through a call of a small side-effect-free boolean helper of the module
+// (`if b.isFull()`): the facts that necessarily hold when it returns pol, in the helper's own SSA
+// values (field loads of its receiver are recognised by the same patterns as in the caller).
+// Calls looked through are recorded in c.expandedPred so that rules which list "other conditions"
+// can treat the call itself as transparent.
+func (c *Ctx) predFacts(call *ssa.Call, pol bool, depth int) ([]clause, bool) {
+	f := call.Call.StaticCallee()
+	if f == nil || !c.inModule(f) || f.Blocks == nil || f.Signature.Results().Len() != 1 {
+		return nil, false
+	}
+	if b, ok := f.Signature.Results().At(0).Type().Underlying().(*types.Basic); !ok || b.Kind() != types.Bool {
+		return nil, false
+	}
+	if !c.predPure(f, 1) {
+		return nil, false
+	}
+	fi := c.info(f)
+	if fi.busy {
+		return nil, false
+	}
+	cf := c.guardsAll(f)
+	var sets [][]clause
+	for _, ret := range returnsOf(f) {
+		res := retResults(ret)
+		if len(res) != 1 {
+			return nil, false
+		}
+		base := append([]clause(nil), cf[ret.Block()]...)
+		if k, isC := constBool(res[0]); isC {
+			if k != pol {
+				continue
+			}
+			sets = append(sets, base)
+			continue
+		}
+		sets = append(sets, append(base, c.litFacts(fi, res[0], pol, depth+1)...))
+	}
+	if len(sets) == 0 {
+		return nil, false
+	}
+	if c.expandedPred == nil {
+		c.expandedPred = map[*ssa.Call]bool{}
+	}
+	c.expandedPred[call] = true
+	merged := mergeClauseSets(sets)
+	out := make([]clause, 0, len(merged))
+	for _, cl := range merged {
+		ncl := make(clause, len(cl))
+		for i, l := range cl {
+			if l.via == nil {
+				l.via = call
+			}
+			ncl[i] = l
+		}
+		out = append(out, ncl)
+	}
+	return out, true
+}
+
+// predPure: f only reads: no stores except into its own locals, no map updates, sends, go/defer,
+// and calls only builtins, a few read-only library functions, atomic loads, or (one level) other
+// such helpers.
+func (c *Ctx) predPure(f *ssa.Function, depth int) bool {
+	if v, ok := c.predPureCache[f]; ok {
+		return v
+	}
+	if c.predPureCache == nil {
+		c.predPureCache = map[*ssa.Function]bool{}
+	}
+	n := 0
+	pure := true
+	for _, b := range f.Blocks {
+		for _, in := range b.Instrs {
+			n++
+			switch x := in.(type) {
+			case *ssa.Store:
+				if _, local := x.Addr.(*ssa.Alloc); !local {
+					if ia, isIA := x.Addr.(*ssa.IndexAddr); isIA {
+						if _, l2 := ia.X.(*ssa.Alloc); l2 {
+							continue
+						}
+					}
+					pure = false
+				}
+			case *ssa.MapUpdate, *ssa.Send, *ssa.Go, *ssa.Defer, *ssa.Panic, *ssa.Select:
+				pure = false
+			case *ssa.Call:
+				if _, isB := x.Call.Value.(*ssa.Builtin); isB {
+					continue
+				}
+				g := x.Call.StaticCallee()
+				if g == nil {
+					pure = false
+					continue
+				}
+				q := qualName(g)
+				switch {
+				case strings.HasPrefix(q, "bytes.") || strings.HasPrefix(q, "strings.") || strings.HasPrefix(q, "unicode/utf8.") || q == "time.Since" || q == "time.Now" || strings.HasPrefix(q, "(time.Time).") || strings.HasPrefix(q, "(time.Duration)."):
+				case g.Name() == "Load" && g.Signature.Recv() != nil:
+				case c.inModule(g) && depth > 0 && g != f && c.predPure(g, depth-1):
+				default:
+					pure = false
+				}
+			}
+		}
+	}
+	if n > 120 {
+		pure = false
+	}
+	c.predPureCache[f] = pure
+	return pure
 }
 
 // mergeClauseSets: facts holding when one of several alternatives holds: the common
